@@ -29,7 +29,7 @@ Fixpoint values_eqb (xs ys : list value) : bool :=
   end.
 Definition err_eqb (a b : err) : bool :=
   match a, b with
-  | EUnbound, EUnbound | EUndefined, EUndefined | ETooMany, ETooMany | EType, EType | EBadForm, EBadForm | EOther, EOther => true
+  | EUnbound, EUnbound | EUndefined, EUndefined | ETooMany, ETooMany | ETooFew, ETooFew | EType, EType | EBadForm, EBadForm | EOther, EOther => true
   | _, _ => false
   end.
 Definition res_eqb (a b : res) : bool :=
